@@ -21,6 +21,7 @@ def main():
 
     if REPO not in sys.path[:1]:
         sys.path.insert(0, REPO)
+    os.environ["VP_HG_INSTRUMENTED"] = "1"  # instrumented code objects cannot be marshalled: no pickle detours in here
     with atheris.instrument_imports(include=["histogrammar"]):
         import histogrammar  # noqa: F401, PLC0415
     from hypothesis import HealthCheck, given, settings  # noqa: PLC0415
